@@ -289,6 +289,45 @@ def ground_facts():
     return gf
 
 
+def split_corpus(built, spec):
+    name, host, call, ftag, mu, rel, mag = spec
+    f = F.BYTAG[ftag]
+    r_ = f.q
+    drv = "drv_" + name.replace(".", "_")
+    ob = Obligation("default:%s:corpus" % name, "ground", ["%s (%s)" % (call, host)],
+                    "closed cases: k = k0 + k1*mu for halves with special limb patterns (multiples of 2^32 / 2^64 / 2^96, all-ones limbs, "
+                    "both signs), small and boundary scalars",
+                    "native run: k = s0*|k0| + s1*|k1|*mu (mod r) with exact sign words and |k0|, |k1| < 2^128")
+    t0 = time.time()
+    r = rng("splitcorpus", name)
+    ks = [0, 1, 2, r_ - 1, r_ - 2, r_ // 2, r_ // 3]
+    pats = [0, 1, 3, (1 << 32) - 1, 1 << 32, (1 << 64) - 1, 1 << 64, (1 << 96), (1 << 64) * 5, (1 << 32) * 7, (1 << 100) + (1 << 64),
+            (1 << 120) - (1 << 64), (1 << 96) * 3 + (1 << 32)]
+    for a in pats:
+        for b in pats[:7] + [r.getrandbits(100)]:
+            for sa in (1, -1):
+                for sb in (1, -1):
+                    ks.append((sa * a + sb * b * mu) % r_)
+    for _ in range(40):
+        ks.append(r.randrange(r_))
+    R_ = 1 << 256
+    for k in ks:
+        am = k * R_ % r_
+        nat = built.native(drv, {"a": int_limbs(am, 4)})
+        n0 = nat["n0"][0] | (nat["n0"][1] << 64)
+        n1 = nat["n1"][0] | (nat["n1"][1] << 64)
+        s0, s1 = nat["sg"]
+        good = s0 in (0, ALL1) and s1 in (0, ALL1)
+        if good:
+            k0 = -n0 if s0 else n0
+            k1 = -n1 if s1 else n1
+            good = (k0 + k1 * mu - k) % r_ == 0
+        if not good:
+            return [ob.fail({"key": "%s.contract" % name, "inputs": {"k": hex(k)}, "native": {"n0": hex(n0), "s0": hex(s0), "n1": hex(n1), "s1": hex(s1)},
+                             "found_by": "native replay of closed cases"}, "native", time.time() - t0, 0)]
+    return [ob.ok("native replay x%d" % len(ks), time.time() - t0, 0, syntactic=True)]
+
+
 POSE_CONTRACT = False  # the congruence needs the rounding lemma (does not close within budget: DESIGN 8)
 MAG_POSED = False   # magnitude bound: posed only if it closes within budget (measured: see DESIGN section 8)
 
@@ -307,6 +346,10 @@ def run(tier, only=None):
                 s = s[:6] + (None,)
             return check_split(built, s, timeout)
         res = pmap(work, specs, nproc=NCPU, timeout=timeout * 10)
+        # closed cases replayed natively: scalars k = k0 + k1*mu built from halves with special limb patterns
+        # (zero low limbs, all-ones limbs, both signs): the returned halves must satisfy the contract
+        for s_ in specs:
+            obs.extend(split_corpus(built, s_))
         merr = None
         for s, (st, val) in zip(specs, res):
             if st == "ok":
